@@ -105,6 +105,10 @@ def first_doc_difference(a, b, path=()):
 def all_doc_differences(a, b, path=()):
     """every leaf position where two documents differ, member names folded the way encoding/json matches
     them (case-insensitively), an absent member and an explicit null not distinguished"""
+    if isinstance(a, srcgen.DupObj):
+        a = dict(a.pairs)          # the last duplicate wins
+    if isinstance(b, srcgen.DupObj):
+        b = dict(b.pairs)
     if isinstance(a, dict) and isinstance(b, dict):
         fa, fb = {k.lower(): v for k, v in a.items()}, {k.lower(): v for k, v in b.items()}
         out = []
@@ -151,9 +155,17 @@ def map_keys_heuristic(result):
     return True
 
 
+ODD_OFFSET = re.compile(r"\d\d:\d\d:\d\d(\.\d+)?[+-]\d\d:(?!00)\d\d\"")
+
+
 def classify_enc_eq(job, result):
-    """why do two values with equal encodings compare unequal?  look at how the INPUT documents of the
-    failing pairs differ"""
+    """why do two values with equal encodings compare unequal?  One ROOT cause per failing pair, by priority:
+      1. the (shared) encoding holds a date-time whose zone offset is not a whole hour: every decode allocates a
+         fresh *time.Location, so the values differ whatever else the inputs do (even the same document twice);
+      2. the input documents write one instant in two zone notations (Z / +00:00);
+      3. the input documents write one number as an integer and as a float literal (union branch chosen by literal);
+      4. otherwise `other` (differences such as an absent vs null member cannot explain an Equals = false).
+    Returns the sorted list of distinct causes over the failing pairs."""
     docs = job["pydocs"]
     n = len(docs)
     encs = [x["enc"] if x["std"] == "ok" else None for x in result["res"]] + \
@@ -163,27 +175,27 @@ def classify_enc_eq(job, result):
         for j in range(len(encs)):
             if encs[i] is None or encs[j] is None or result["eq"][i][j] != "f" or not srcgen.json_same(encs[i], encs[j]):
                 continue
+            if ODD_OFFSET.search(srcgen.dumps(encs[i])):
+                causes.add("datetime-offset-not-whole-hour")
+                continue
             a, b = docs[i % n], docs[j % n]
             try:
                 ds = all_doc_differences(a, b)
             except Exception:
                 ds = []
-            if not ds:
-                # the same document decoded twice
-                if re.search(r"[+-]\d\d:(?!00)\d\d\"", srcgen.dumps(a)):
-                    causes.add("datetime-offset-not-whole-hour")
-                elif re.search(r"\d{4}-\d\d-\d\dT", srcgen.dumps(a)):
-                    causes.add("datetime")
-                else:
-                    causes.add("same-document")
-            for d in ds:
-                if isinstance(d[1], str) and isinstance(d[2], str) and TS.match(d[1]) and TS.match(d[2]):
-                    causes.add("datetime-zone-notation")
-                elif isinstance(d[1], (int, srcgen.Decimal)) and isinstance(d[2], (int, srcgen.Decimal)):
-                    causes.add("number-literal-selects-other-union-branch")
-                else:
-                    causes.add("other")
-    return "+".join(sorted(causes)) or "other"
+            if any(isinstance(d[1], str) and isinstance(d[2], str) and TS.match(d[1]) and TS.match(d[2]) for d in ds):
+                causes.add("datetime-zone-notation")
+            elif any(_is_num(d[1]) and _is_num(d[2]) and srcgen.Decimal(d[1]) == srcgen.Decimal(d[2]) for d in ds):
+                causes.add("number-literal-selects-other-union-branch")
+            elif not ds and re.search(r"\d{4}-\d\d-\d\dT", srcgen.dumps(a)):
+                causes.add("datetime")
+            else:
+                causes.add("other")
+    return sorted(causes) or ["other"]
+
+
+def _is_num(x):
+    return isinstance(x, (int, srcgen.Decimal)) and not isinstance(x, bool)
 
 
 def run(ctx, verdict, replay=None, model_ok=True):
@@ -256,16 +268,17 @@ def run(ctx, verdict, replay=None, model_ok=True):
                 continue
             job = camp.jobs[i]
             if law in ("symmetric", "transitive", "equals_implies_encode_eq_mod_empty"):
-                cause = "map-key-sets-differ" if (i in by_map or (i in unm0 and map_keys_heuristic(camp.results[i]))) else "other"
+                causes = ["map-key-sets-differ" if (i in by_map or (i in unm0 and map_keys_heuristic(camp.results[i]))) else "other"]
             elif law == "encode_eq_implies_equals":
-                cause = classify_enc_eq(job, camp.results[i])
+                causes = classify_enc_eq(job, camp.results[i])
             else:
-                cause = "other"
-            sig = {"law": law, "cause": cause}
-            st = verdict.propfail(sig, {"job": camp.job_payload(i), "observed": camp.results[i],
-                                        "predicate": "Model/GoSemChecks.v %s = true on the observed Equals matrix / encodings" % key.lower()})
-            if st == "violation":
-                budget -= 1
+                causes = ["other"]
+            for cause in causes:
+                st = verdict.propfail({"law": law, "cause": cause},
+                                      {"job": camp.job_payload(i), "observed": camp.results[i],
+                                       "predicate": "Model/GoSemChecks.v %s = true on the observed Equals matrix / encodings" % key.lower()})
+                if st == "violation":
+                    budget -= 1
     mm = sorted(set(ev["MM_STD"]) | set(ev["MM_STRICT"]) | set(ev["MM_EQ"]) | set(ev["MM_WT"]) | set(ev["MM_SPEC"]))
     dead = [i for i, r in enumerate(camp.results) if r is None]
     for i in dead[:3]:
